@@ -32,6 +32,7 @@ Rules are phrased over this canonical form so that behaviour-preserving respelli
  N24 `return next((E for T in XS if C), D)` -> `for T in XS: if C: return E` then `return D`
  N25 `v = D.get(K)` tested with `v is [not] None` -> the tests become `K [not] in D`, the other reads of v become `D[K]`
  N26 a list display that is only iterated over or tested for membership (`for x in [a, b]`, `x in [a, b]`) is a tuple display
+ N27 `chain.from_iterable(map(F, XS))` -> `(m for c in XS for m in F(c))`;  N28 `list(<generator expression>)` -> the list comprehension
  N18 a self-assignment `x = x` is dropped
  N6  `v = []` directly followed by `for t in xs: [if c:] v.append(e)` -> `v = [e for t in xs if c]`
 
@@ -94,6 +95,28 @@ class _Norm(ast.NodeTransformer):
     # ---- N13 -----------------------------------------------------------------------------------
     def visit_Call(self, n: ast.Call):
         self.generic_visit(n)
+        # N27: chain.from_iterable(map(F, XS)) / chain.from_iterable(<comprehension of E>) -> (m for .. for m in E)
+        fname = n.func.attr if isinstance(n.func, ast.Attribute) else None
+        if fname == 'from_iterable' and len(n.args) == 1 and not n.keywords and (
+                (isinstance(n.func.value, ast.Name) and n.func.value.id == 'chain')
+                or (isinstance(n.func.value, ast.Attribute) and n.func.value.attr == 'chain')):
+            a = n.args[0]
+            used = {x.id for x in ast.walk(self.fn_stack[-1]) if isinstance(x, ast.Name)} if self.fn_stack else set()
+            fresh = [nm for nm in ('m', 'each', 'elem', 'm_', 'c_', 'x_') if nm not in used]
+            if isinstance(a, ast.Call) and isinstance(a.func, ast.Name) and a.func.id == 'map' and len(a.args) == 2 and not a.keywords \
+                    and len(fresh) >= 2:
+                cv, mv = fresh[0], fresh[1]
+                inner = ast.Call(a.args[0], [ast.Name(cv, ast.Load())], [])
+                return ast.copy_location(ast.GeneratorExp(ast.Name(mv, ast.Load()), [
+                    ast.comprehension(ast.Name(cv, ast.Store()), a.args[1], [], 0),
+                    ast.comprehension(ast.Name(mv, ast.Store()), inner, [], 0)]), n)
+            if isinstance(a, (ast.GeneratorExp, ast.ListComp)) and fresh:
+                mv = fresh[0]
+                return ast.copy_location(ast.GeneratorExp(ast.Name(mv, ast.Load()), list(a.generators) + [
+                    ast.comprehension(ast.Name(mv, ast.Store()), a.elt, [], 0)]), n)
+        # N28: list(<generator expression>) is the list comprehension
+        if isinstance(n.func, ast.Name) and n.func.id == 'list' and len(n.args) == 1 and not n.keywords and isinstance(n.args[0], ast.GeneratorExp):
+            return ast.copy_location(ast.ListComp(n.args[0].elt, n.args[0].generators), n)
         # N21: typing.cast(T, e) is e
         if isinstance(n.func, ast.Name) and n.func.id == 'cast' and len(n.args) == 2 and not n.keywords:
             return n.args[1]
@@ -462,6 +485,49 @@ class _Norm(ast.NodeTransformer):
                     loop = ast.copy_location(ast.For(g.target, g.iter, [inner], [], lineno=s.lineno), s)
                     stmts[i:i + 1] = [loop, ast.copy_location(ast.Return(s.value.args[1]), s)]
                     i += 2
+                    continue
+            # N24b: `v = next((E for T in XS if C), None)` + `if v is not None: BODY` (v not used otherwise)
+            #        -> `for T in XS: if C: v = E; BODY; break`
+            nx = stmts[i + 1] if i + 1 < len(stmts) else None
+            if (isinstance(s, ast.Assign) and len(s.targets) == 1 and isinstance(s.targets[0], ast.Name) and isinstance(s.value, ast.Call)
+                    and isinstance(s.value.func, ast.Name) and s.value.func.id == 'next' and len(s.value.args) == 2 and not s.value.keywords
+                    and isinstance(s.value.args[0], ast.GeneratorExp) and len(s.value.args[0].generators) == 1
+                    and isinstance(s.value.args[1], ast.Constant) and s.value.args[1].value is None
+                    and isinstance(nx, ast.If) and not nx.orelse and isinstance(nx.test, ast.Compare) and len(nx.test.ops) == 1
+                    and isinstance(nx.test.ops[0], ast.IsNot) and isinstance(nx.test.left, ast.Name) and nx.test.left.id == s.targets[0].id
+                    and isinstance(nx.test.comparators[0], ast.Constant) and nx.test.comparators[0].value is None):
+                v = s.targets[0].id
+                ge = s.value.args[0]
+                g = ge.generators[0]
+                tv = {n.id for n in ast.walk(g.target) if isinstance(n, ast.Name)}
+                inside = {id(n) for n in ast.walk(ge)}
+                same = isinstance(ge.elt, ast.Name) and ge.elt.id == v
+                clash = any(isinstance(n, ast.Name) and n.id in (tv - ({v} if same else set())) and id(n) not in inside for n in ast.walk(fn))
+                in_if = {id(n) for n in ast.walk(nx)}
+                other_uses = [n for n in ast.walk(fn) if isinstance(n, ast.Name) and n.id == v and id(n) not in in_if and id(n) not in inside
+                              and n is not s.targets[0]]
+                jumps = any(isinstance(n, (ast.Break, ast.Continue)) for b in nx.body for n in ast.walk(b))
+                if not clash and not other_uses and not jumps and not g.is_async:
+                    import copy
+                    body = list(nx.body)
+                    if isinstance(ge.elt, ast.Name):
+                        # the found element simply *is* the loop variable
+                        for b in body:
+                            for n in [n for n in ast.walk(b) if isinstance(n, ast.Name) and n.id == v and isinstance(n.ctx, ast.Load)]:
+                                _replace(b, n, ast.copy_location(ast.Name(ge.elt.id, ast.Load()), n))
+                    else:
+                        body = [ast.copy_location(ast.Assign([ast.Name(v, ast.Store())], ge.elt, lineno=s.lineno), s)] + body
+                    if not isinstance(body[-1], (ast.Return, ast.Raise)):
+                        body.append(ast.copy_location(ast.Break(), nx))
+                    inner = body
+                    if g.ifs:
+                        cond = g.ifs[0] if len(g.ifs) == 1 else ast.BoolOp(ast.And(), list(g.ifs))
+                        inner = [ast.copy_location(ast.If(cond, body, []), nx)]
+                    for n in ast.walk(g.target):
+                        if isinstance(n, ast.Name):
+                            n.ctx = ast.Store()
+                    stmts[i:i + 2] = [ast.copy_location(ast.For(g.target, g.iter, inner, [], lineno=s.lineno), s)]
+                    i += 1
                     continue
             for fld in ('body', 'orelse', 'finalbody'):
                 v = getattr(s, fld, None)
